@@ -9,7 +9,7 @@ CHECKS = {
  "C03": ("proof", "per (prefix, opcode): the memory image and pointer registers after executing the lifted IL equal the image obtained by applying the documented semantics to the locations denoted by the rendered text, and every byte read is a denoted location; all operand bytes, BP/PX/PY, registers and memory symbolic. Counted instructions for every I >= 1 by an IL-level loop rule (init / one havoced body execution under a linear invariant / exit); whole counted instructions at concrete I as bounded companion", "specification = spec/isa.py (README transcription); README-silent corners excluded by listed definedness conditions; " + TB, "5 C03"),
  "C04": ("proof", "per opcode: every architectural register, both flags, the whole memory image and the halted state after Emulator.execute_instruction equal the README semantics for all operand values and all surrounding state (frame included); counted instructions for every I >= 1 by the IL-level loop rule (element step, carry chain, zero accumulator, cursors, exit state), concrete I in {1,2,3[,4]} as bounded companion; I = 0 and prefixed WAIT not covered by the induction", "specification = spec/isa.py; listed definedness conditions and unconstrained outputs; " + TB, "5 C04"),
  "C05": ("proof", "branch records produced by the real analyze() vs the PC reached by the real IL evaluation, at a symbolic 20-bit address, all operands/flags/stack symbolic; CALL/RET, CALLF/RETF, IR/RETI inverse laws as z3 lemmas over the instruction contracts", "near CALL/RET law needs caller and RET on the same 64 KiB page (stated and shown necessary); " + TB, "5 C05"),
- "C07": ("proof", "2-safety contract on Emulator.execute_instruction per opcode: fresh emulator vs emulator with an execution history, TEMP0-13 arbitrary and different, same architectural inputs => same outputs; module globals unchanged. Python half only", "hidden state other than TEMPs is covered through three concrete history instructions; Rust statics/thread-locals not decided; " + TB, "5 C07"),
+ "C07": ("proof", "2-safety contract on Emulator.execute_instruction per opcode: fresh emulator vs emulator with an execution history, TEMP0-13 arbitrary and different, same architectural inputs => same outputs; module globals unchanged. Python half only", "hidden state other than TEMPs is covered through the listed concrete history instructions; Rust half not proved: bounded two-run stand-in on the compiled crate (never counted), statics/thread-locals not decided; " + TB, "5 C07"),
  "C08": ("proof", "contracts on Registers.get/set (+by-name, flag API) for every register name, arbitrary prior file and arbitrary 64-bit written value, the algebraic law as a lemma over the contract, snapshot round trip and register blob layout (Python half); Rust LlamaState::set_reg/get_reg only by a bounded stand-in on the compiled crate", "Rust half not proved: bounded stand-in (never counted); snapshot.rs constants compared under C17; " + TB, "5 C08"),
  "C09": ("exploration", "bounded contract check of Assembler.assemble over the structural enumeration of accepted encodings (opcode x prefix x every selector/mode byte, operand values from a palette, every named internal register): assemble(text) succeeds, same text, same lifted IL, second round fixpoint. On the unchanged tree several whole classes fail; each root cause is one known finding and anything outside them is reported", "strings and the lark parser cannot be carried symbolically; operand values are sampled, structure is complete; " + TB, "5 C09 / 10.5"),
  "C10": ("exploration", "bounded contract check of Assembler.assemble on generated programs against an independent layout calculator (bytes at addresses, symbol table, determinism, statelessness); the two lemmas O-size (pass-one size == pass-two bytes for every symbol value) and O-near (page rule) are proved by SYMX and reported under proved_lemmas", "strings and the lark parser cannot be carried symbolically: the contract on assemble() is bounded (generated programs, seeded); " + TB, "5 C10"),
